@@ -172,6 +172,43 @@ def render_check(rng, n, impl=None):
     return rendered, fails, not_wf, dict(documents=len(docs), rendered=rendered, not_wf_or_error=not_wf, writer_choice_runs=sum(1 for s in seeds if s == 0))
 
 
+def prefix_check(rng, n_small, n_large, impl=None):
+    """C15 support: every proper prefix of a writer-style document (all prefixes of small documents, sampled
+    prefixes of large ones).  A prefix at least 2 bytes short (the rendering ends with "</e57Root>\\n") must be
+    rejected by model and roxmltree alike (err-parse, or err-utf8 when the cut falls inside a character); the
+    prefix 1 byte short (only the final LF missing) is a complete document and must give the full tree
+    (instances of Proofs/XmlpPrefix.v: writer_prefix_fails).  Returns (cases, failures, stats)."""
+    impl = impl or core.ensure_harness("release")
+    docs, cases = [], []
+    while len(docs) < n_small:
+        d = xmlgen.writer_doc(rng)
+        a, b = compare([d], impl)
+        if a[0].startswith("D ") and len(d) <= 1500:
+            docs.append((d, a[0]))
+            cases += [(d, a[0], k) for k in range(len(d))]
+    big = 0
+    while big < n_large:
+        d = xmlgen.writer_doc(rng)
+        a, b = compare([d], impl)
+        if a[0].startswith("D "):
+            big += 1
+            ks = set([len(d) - 1, len(d) - 2, len(d) - 3, 0, 1] + [rng.below(len(d)) for _ in range(60)])
+            cases += [(d, a[0], k) for k in sorted(ks)]
+    o_impl, o_model = compare([d[:k] for d, _, k in cases], impl)
+    fails, kinds = [], {}
+    for (d, full, k), a, b in zip(cases, o_impl, o_model):
+        short = len(d) - k
+        if short >= 2:
+            ok = a == b and a in ("err-parse", "err-utf8")
+            kinds[a if ok else "BAD"] = kinds.get(a if ok else "BAD", 0) + 1
+        else:
+            ok = a == b == full
+            kinds["one-byte-short:tree" if ok else "BAD"] = kinds.get("one-byte-short:tree" if ok else "BAD", 0) + 1
+        if not ok:
+            fails.append(dict(kind="prefix", doc=d.hex(), cut=k, impl=a[:300], model=b[:300]))
+    return len(cases), fails, dict(documents=len(docs) + big, prefixes=len(cases), outcomes=kinds)
+
+
 def shrink(doc_hex, impl=None):
     """greedy byte-deletion shrinking of a disagreeing document"""
     d = bytes.fromhex(doc_hex)
@@ -242,6 +279,13 @@ def run(rep, tier, rng, replay=None):
         rep.violation("render-roundtrip-xmlp", "rendering of a well-formed tree is not read back as that tree (%s): %s" % (f["kind"], str(f)[:500]),
                       dict(f, kind="xml-render"), no_input=True)
     stats["render_failures"] = len(rfails)
+    pcases, pfails, pstats = prefix_check(rng, 6 if tier == "quick" else 60, 20 if tier == "quick" else 400, impl)
+    rep.count(pcases)
+    stats["prefix_check"] = pstats
+    for f in pfails[:3]:
+        rep.violation("prefix-xmlp", "a proper prefix of a writer-style document is not rejected alike by model and roxmltree: %s" % str(f)[:500],
+                      dict(f, kind="xml-prefix"), no_input=True)
+    print("XMLP prefix check: %s, %d failures" % (pstats, len(pfails)))
     rep.cov["xmlp"] = stats
     rep.cov["distinct_nontrivial"] = cases
     for m in mism[:3]:
